@@ -224,10 +224,7 @@ def shard(ctx: Ctx) -> None:
                     cases.append({"kind": "parity", "bases": bs, "state": basis_state(n, (sidx * 7 + outcome) % (2**n)), "outcome": outcome, "flavour": fl})
     mine = [c for i, c in enumerate(cases) if i % ctx.nshards == ctx.shard]
     for case in mine:
-        try:
-            check(case)
-        except Failure as f:
-            ctx.fail(f)
+        ctx.attempt(case, check, case)
         nt = not (case["kind"] == "parity" and set(case["bases"].lstrip("-")) == {"I"})
         stt.case(case, nt, [case["kind"], case["flavour"]] + ([case["circuit"]] if case["kind"] == "unitary" else []), sample=case if case["kind"] != "parity" or len(case["bases"]) <= 2 else None)
     stt.exhaustive_domains["toffoli/t_inverse on Choi + basis inputs; parity strings (168) x fixed states x outcomes"] = len(mine)
